@@ -131,7 +131,11 @@ public:
     entry->id = id;
     entry->callback = std::move(callback);
     entry->deadline = deadline;
-    insertEntry(entry, delay);
+    // currentTick is the tick index at _lastAdvanceTime, not at "now": measure the
+    // bucket distance from the wheel's time base, or a late tick thread's catch-up
+    // sweeps the entry early.
+    insertEntry(entry, _lastAdvanceTime != TimePoint{}
+      ? std::chrono::duration_cast<std::chrono::milliseconds>(deadline - _lastAdvanceTime) : delay);
     _entryMap[id] = entry;
     return id;
   }
@@ -162,7 +166,8 @@ public:
     auto* entry = it->second;
     unlinkEntry(entry);
     entry->deadline = Clock::now() + newDelay;
-    insertEntry(entry, newDelay);
+    insertEntry(entry, _lastAdvanceTime != TimePoint{}
+      ? std::chrono::duration_cast<std::chrono::milliseconds>(entry->deadline - _lastAdvanceTime) : newDelay);
     return true;
   }
 
